@@ -446,7 +446,18 @@ pub fn part_unparse_identity(args: &Args) -> Part {
     let cfg = gen_cfg(args.tier_quick(), args.seed(), true);
     for tab in &tables {
         table::set_table(tab);
-        for p in families::tree_programs(&cfg, 3) {
+        let mut pad_ctr = 0usize;
+        for p0 in families::tree_programs(&cfg, 3) {
+            // "exactly the text it was parsed from": also with blanks in front, behind, and doubled inside
+            pad_ctr += 1;
+            let mut p = p0;
+            p.text = match pad_ctr % 5 {
+                0 => format!(" {}", p.text),
+                1 => format!("{} ", p.text),
+                2 => format!("  {}  ", p.text),
+                3 => p.text.replacen(' ', "  ", 1),
+                _ => p.text,
+            };
             sym::reset_arena();
             out.stats.programs += 1;
             out.stats.note_text(0, &p.text);
@@ -454,6 +465,8 @@ pub fn part_unparse_identity(args: &Args) -> Part {
                 ("flat.unparse", catch_unwind(AssertUnwindSafe(|| Flat::<Sym, SymOps>::parse(&p.text).map(|e| e.unparse().to_string())))),
                 ("flat_wo.unparse", catch_unwind(AssertUnwindSafe(|| Flat::<Sym, SymOps>::parse_wo_compile(&p.text).map(|e| e.unparse().to_string())))),
                 ("flat.display", catch_unwind(AssertUnwindSafe(|| Flat::<Sym, SymOps>::parse(&p.text).map(|e| format!("{e}"))))),
+                ("flat.clone.unparse", catch_unwind(AssertUnwindSafe(|| Flat::<Sym, SymOps>::parse(&p.text).map(|e| e.clone().unparse().to_string())))),
+                ("flat_wo.compile.unparse", catch_unwind(AssertUnwindSafe(|| Flat::<Sym, SymOps>::parse_wo_compile(&p.text).map(|mut e| { e.compile(); e.unparse().to_string() })))),
             ] {
                 match r {
                     Ok(Ok(s)) if s == p.text => {}
@@ -482,7 +495,7 @@ pub fn part_unparse_identity(args: &Args) -> Part {
         }
     }
     out.wall_s = t0.elapsed().as_secs_f64();
-    let b = json!({"tables": tables.len(), "check": "FlatEx::parse(t).unparse() == t, parse_wo_compile likewise, Display likewise: string equality on every tree-generated text (path-level, nothing symbolic)"});
+    let b = json!({"tables": tables.len(), "check": "FlatEx::parse(t).unparse() == t, parse_wo_compile likewise, Display, clone and compile-after-parse_wo_compile likewise: string equality on every tree-generated text, two of five with a blank in front / behind / both, one with a doubled inner blank (path-level, nothing symbolic)"});
     Part { name: "unparse-identity", out, bounds: b }
 }
 
@@ -621,14 +634,18 @@ pub fn c04(args: &Args) -> i32 {
     }
     let work_tables: Vec<Table> = work.iter().map(|w| w.1.clone()).collect();
     let pools: Vec<usize> = work.iter().map(|w| w.0).collect();
-    let gen = move |ti: usize, _t: &Table| -> Vec<Program> {
+    let gen = move |ti: usize, t: &Table| -> Vec<Program> {
         let pool = NAME_POOLS[pools[ti]];
         let mut rng = crate::tree::Rng(seed.wrapping_mul(31).wrapping_add(ti as u64));
         let mut out = vec![];
         let n_prog = if quick { 600 } else { 3000 };
+        // tables with commutativity flags regroup literal pairs: the value VC then needs the solver to prove an AC
+        // regrouping, which is C01's subject and gets expensive beyond ~6 operands of two interleaved flagged operators
+        // (bit-vector multiplication chains); the binding of names is independent of that, so flagged tables get short chains
+        let flagged = t.ops.iter().any(|o| o.bin.map(|b| b.1).unwrap_or(false));
         for pi in 0..n_prog {
             // choose how many distinct names and an occurrence pattern
-            let k = 1 + rng.below(pool.len());
+            let k = 1 + rng.below(if flagged { pool.len().min(5) } else { pool.len() });
             let n_occ = k + rng.below(4);
             let mut leaves: Vec<Tree> = vec![];
             let mut texts: Vec<String> = vec![];
@@ -1245,6 +1262,9 @@ pub fn c13(args: &Args) -> i32 {
             OpSpec::konst("π"),
             OpSpec::un("exp"),
             OpSpec::bin("<<", 2, false),
+            // a unary-only symbolic operator that is a proper prefix of a binary one
+            OpSpec::un("!"),
+            OpSpec::bin("!=", 1, false),
         ],
         arithmetic: false,
         not_really_ac: vec![],
@@ -1327,6 +1347,10 @@ pub fn c13(args: &Args) -> i32 {
         add("x<-y".into(), Tree::bin(ix("<"), Tree::var("x"), Tree::un(ix("-"), Tree::var("y"))), "longest-match");
         add("x<=-y".into(), Tree::bin(ix("<="), Tree::var("x"), Tree::un(ix("-"), Tree::var("y"))), "longest-match");
         add("x <= 2 < y".into(), Tree::bin(ix("<"), Tree::bin(ix("<="), Tree::var("x"), Tree::lit("2")), Tree::var("y")), "longest-match");
+        add("x!=y".into(), Tree::bin(ix("!="), Tree::var("x"), Tree::var("y")), "longest-match");
+        add("x != !y".into(), Tree::bin(ix("!="), Tree::var("x"), Tree::un(ix("!"), Tree::var("y"))), "longest-match");
+        add("!x".into(), Tree::un(ix("!"), Tree::var("x")), "longest-match");
+        add("!x!=!!y".into(), Tree::bin(ix("!="), Tree::un(ix("!"), Tree::var("x")), Tree::un(ix("!"), Tree::un(ix("!"), Tree::var("y")))), "longest-match");
         // sign rule
         let x = || Tree::var("x");
         let y = || Tree::var("y");
@@ -1374,8 +1398,8 @@ pub fn c13(args: &Args) -> i32 {
         // signs, constants, literal spellings, identifiers that continue operator names), rendered glued and spaced,
         // with and without parentheses around unary operands: every adjacency of two lexeme classes occurs
         {
-            let bins: Vec<u16> = ["<", "<=", "<<", "-", "+", "*"].iter().map(|r| ix(r)).collect();
-            let uns: Vec<Option<u16>> = std::iter::once(None).chain(["log", "log2", "log10", "sin", "sinh", "exp", "-", "+"].iter().map(|r| Some(ix(r)))).collect();
+            let bins: Vec<u16> = ["<", "<=", "<<", "-", "+", "*", "!="].iter().map(|r| ix(r)).collect();
+            let uns: Vec<Option<u16>> = std::iter::once(None).chain(["log", "log2", "log10", "sin", "sinh", "exp", "-", "+", "!"].iter().map(|r| Some(ix(r)))).collect();
             let leaves: Vec<Tree> = vec![
                 Tree::var("x"), Tree::var("h"), Tree::var("log2x"), Tree::var("PIx"), Tree::var("α"), Tree::var("e1"),
                 Tree::lit("4"), Tree::lit("1."), Tree::lit(".5"), Tree::lit("10"), Tree::Konst(ix("PI")), Tree::Konst(ix("e")),
@@ -1433,9 +1457,9 @@ pub fn c13(args: &Args) -> i32 {
         name: "lexical-families",
         out,
         bounds: json!({
-            "tables": "one table with unary log/log2/log10/sin/sinh/exp, binary < <= << - + *, constants PI E e π; and the same table in reversed order",
+            "tables": "one table with unary log/log2/log10/sin/sinh/exp and unary-only !, binary < <= << - + * !=, constants PI E e π; and the same table in reversed order",
             "families": ["operator names extended by 4 x _ α Ω9 _1 E PI e 0x => variable", "exact names applied to literal / variable / sign / braces", "truncated names => variable", "constants and extended constant names", "longest match (log2/log10 over log, sinh over sin, <= and << over <)", "sign chains", "literal spellings", "anything in braces", "Greek / underscore identifiers",
-                "adjacency: every tree u1(a) op u2(b), u1 u2 a, and sampled u(a op b), (a op b) op2 c, a op (b op2 c) over binaries < <= << - + *, unaries log log2 log10 sin sinh exp - + (or none), leaves x h log2x PIx α e1 4 1. .5 10 PI e; rendered glued, spaced, with parenthesised unary operands, with braced variables"],
+                "adjacency: every tree u1(a) op u2(b), u1 u2 a, and sampled u(a op b), (a op b) op2 c, a op (b op2 c) over binaries < <= << - + * !=, unaries log log2 log10 sin sinh exp - + ! (or none), leaves x h log2x PIx α e1 4 1. .5 10 PI e; rendered glued, spaced, with parenthesised unary operands, with braced variables"],
             "check": "var_names and value term equal to the expected tree (solver-decided value equality; these are paths of the real tokenizer at T = Sym)",
             "pipelines": pls,
         }),
